@@ -54,7 +54,6 @@ where
     S: Strategy<T> + CaS<T> + CurForms + Default + Send + Sync + 'static,
     S::Protected: Send,
 {
-    let _ = driver::cache_cached_offset::<S>();
     let reuse = match prog.reuse.as_str() {
         "lifo" => vptr::Reuse::Lifo,
         "fifo" => vptr::Reuse::Fifo,
